@@ -22,6 +22,7 @@ HostClasses == {"origin",      \* ordinary name, matches nothing
                 "deniedUpper", \* the same domain spelt in upper case by the client: the same domain, denied as well
                 "denyExcl",    \* matches an include rule and a '-' exclude rule
                 "direct",      \* matches direct-domains
+                "directUpper", \* the same domain spelt in upper case by the client
                 "directExcl"}  \* matches direct-domains include and exclude
                \cup LocalHosts
 IsLocal(h) == h \in LocalHosts
@@ -73,7 +74,7 @@ BaseHop(up) ==
 NextHop(cfg, h) ==
   IF cfg.up.t = "none" THEN Direct
   ELSE IF cfg.lh = "direct" /\ IsLocal(h) THEN Direct
-  ELSE IF cfg.dd /\ h = "direct" THEN Direct
+  ELSE IF cfg.dd /\ h \in {"direct", "directUpper"} THEN Direct
   ELSE BaseHop(cfg.up)
 
 \* net.go DialRedirectFromHostPortPairs: first matching rule; empty = any / unchanged.
@@ -120,7 +121,7 @@ NoUp == [t |-> "none", v |-> "-"]
 AccessKinds == {"GET", "GET10", "POST", "CONNECT", "MITMGET", "GETorigin", "MITMGEThost"}
 AccessCfgs == [tf : {"off", "in", "out"}, auth : BOOLEAN, lh : {"deny", "allow"}, deny : BOOLEAN, dd : {FALSE},
                up : {NoUp, [t |-> "static", v |-> "HTTP_A"]}, ct : {"none"}]
-AccessReqs == [kind : AccessKinds, host : HostClasses \ {"direct", "directExcl"}, cred : CredClasses,
+AccessReqs == [kind : AccessKinds, host : HostClasses \ {"direct", "directUpper", "directExcl"}, cred : CredClasses,
                via : {"none", "ownOnly"}, pos : Positions]
 AccessOK(c, r) ==
   /\ (r.host \in {"lo6zone", "lhDot"} => r.kind \in {"GET", "GET10", "POST"})   \* written in a URL
@@ -132,9 +133,9 @@ AccessAll == {x \in AccessCfgs \X AccessReqs : AccessOK(x[1], x[2])}
 
 RouteKinds == {"GET", "CONNECT", "MITMGET"}
 RouteCfgs == [tf : {"off"}, auth : {FALSE}, lh : {"allow", "direct"}, deny : {FALSE}, dd : BOOLEAN, up : Upstreams, ct : CtClasses]
-RouteReqs == [kind : RouteKinds, host : {"origin", "direct", "directExcl", "lo4", "lhName", "lo6"}, cred : {"none"},
+RouteReqs == [kind : RouteKinds, host : {"origin", "direct", "directUpper", "directExcl", "lo4", "lhName", "lo6"}, cred : {"none"},
               via : {"none"}, pos : {"first"}]
-RouteOK(c, r) == /\ (r.host \in {"direct", "directExcl"} => c.dd)
+RouteOK(c, r) == /\ (r.host \in {"direct", "directUpper", "directExcl"} => c.dd)
                  /\ (c.ct # "none" => r.host \in {"origin", "direct", "lo4"} /\ r.kind # "MITMGET"
                                       /\ BaseHop(c.up).k \in {"direct", "http"})
 RouteAll == {x \in RouteCfgs \X RouteReqs : RouteOK(x[1], x[2])}
@@ -181,7 +182,10 @@ AccessBase == {x \in AccessAll : /\ x[2].cred \in {"none", "exact"} /\ x[2].via 
                                  /\ x[1].deny = (x[2].host \in {"denied", "deniedUpper", "denyExcl"})}
 InitAccess == gen = "access" /\ \E x \in Pick(AccessSample, AccessAll) \cup (IF AccessSample = 0 THEN {} ELSE AccessBase) :
                   cfg = x[1] /\ req = x[2] /\ out = Decide(x[1], x[2])
-InitRoute  == gen = "route"  /\ \E x \in Pick(RouteSample, RouteAll)   : cfg = x[1] /\ req = x[2] /\ out = Decide(x[1], x[2])
+\* every (kind, host, upstream) triple is always run without connect-to rules
+RouteBase == {x \in RouteAll : x[1].ct = "none" /\ x[1].lh = "allow" /\ x[1].dd = (x[2].host \in {"direct", "directUpper", "directExcl"})}
+InitRoute  == gen = "route"  /\ \E x \in Pick(RouteSample, RouteAll) \cup (IF RouteSample = 0 THEN {} ELSE RouteBase) :
+                  cfg = x[1] /\ req = x[2] /\ out = Decide(x[1], x[2])
 InitVia    == gen = "via"    /\ cfg \in ViaCfgs /\ req \in ViaReqs /\ out = Decide(cfg, req)
 InitCred   == gen = "cred"   /\ \E x \in Pick(CredSample, CredAll) : cfg = x[1] /\ req = x[2] /\ out = CredExpect(x[1], x[2])
 Init == InitAccess \/ InitRoute \/ InitVia \/ InitCred
